@@ -190,3 +190,10 @@ package eval
 //@   safe nil
 //@   inline 8 2
 //@   witness nil#1 "arr = [1]\ncase arr\nin [x, "
+
+//@ # pattern parsing is entered with whatever token was read last - possibly the nil token at end of file
+//@ func (*ti/eval.In).parsePattern
+//@   sitesonly
+//@   inline 8 2
+//@   callsite[C01] IsClassType a_t != nil
+//@   witness site:call.0#0 "a = {name: 'x'}\ncase a\nin {name:,"
